@@ -154,6 +154,19 @@ def run(prop, tier, seed, rep):
         raise core.ToolError(f"MC_CPR fails on the specification itself: {res['violated']}")
     hx = core.build_hx("std")
     ins = inputs(rng, tier)
+    # spec -> impl: the reports of every state of MC_CPR (both orders) are replayed through the real pairing function
+    import re
+    res2 = core.run_mc("MC_CPR", cfg="MC_CPR_replay", workers=8, timeout=3000)
+    n_model = 0
+    for t in res2["tuples"]:
+        m = re.match(r'<<"REPLAY", <<(\d+), (\d+), (\d+), (\d+), (\d+)>>, <<(\d+), (\d+), (\d+), (\d+), (\d+)>>>>$', t)
+        if m:
+            g = [int(x) for x in m.groups()]
+            for k in (0, 5):
+                fo, la1, lo1, la2, lo2 = g[k:k + 5]
+                ins.append({"tag": "model", "first": [fo, la1, lo1], "second": [1 - fo, la2, lo2]})
+                n_model += 1
+    rep.extra["pairs_from_MC_CPR_states"] = n_model
     r = subprocess.run([hx, "pair"], input="\n".join(json.dumps(x) for x in ins) + "\n", stdout=subprocess.PIPE,
                        stderr=subprocess.PIPE, text=True, timeout=1200)
     if r.returncode != 0:
